@@ -17,6 +17,7 @@ ASSUMPTIONS = ["constraints attached to the OUTER block have no documented meani
                "whole-sequence constraints of the Nest are evaluated with sim/refsem.py's constraint semantics"]
 BUDGET = {"quick": 300, "thorough": 900}
 RUNS = {"quick": 250, "thorough": 45000}
+THOROUGH_RUNS = 700        # the thorough tier of this (expensive) check: a fixed range sized to stay within ~15 minutes
 
 
 def gen_case(rs, tier):
